@@ -11,7 +11,7 @@ IMPORTS = "From DC Require Import Model.Base Model.Loc Model.Bio Model.Pattern M
 CASE_TYPE = "case10"
 CHECKER = "check10"
 SHOW = "model10"
-RULE = ("random proteins back-translated with random codons, embedded at a random offset/strand of a longer random sequence; "
+RULE = ("random proteins back-translated with random codons, embedded at a random offset/strand of a longer random sequence (30%: the same specification objects first used on another gene); "
         "EnforceTranslation (Standard/Bacterial) + MaximizeCAI / CodonOptimize(use_best_codon) / HarmonizeRCA with the shim's named tables "
         "or random user tables (ties, zero frequencies); default solver settings; per-codon optimum from an independent table lookup; "
         "non-trivial = at least one codon had to change; distinct by JSON text")
@@ -46,6 +46,11 @@ def gen(rng):
             d["orig_species"] = rng.choice(["b_subtilis", "h_sapiens", "c_elegans"])
         else:
             d["orig_usage"] = table_to_desc(user_table(rng))
+    if rng.random() < 0.3:
+        # the same specification objects are first used on another gene of the same geometry
+        prot2 = "".join(rng.choice(AAS) for _ in range(len(prot)))
+        gene2 = "".join(rng.choice(back[a]) for a in prot2)
+        d["seq2"] = rdna(rng, len(left)) + (gene2 if strand == 1 else rcs(gene2)) + rdna(rng, len(right))
     return d
 
 
@@ -62,6 +67,13 @@ def build(d):
         obj = dc.CodonOptimize(species=d.get("species"), codon_usage_table=usage, location=loc, method="harmonize_rca",
                                original_species=d.get("orig_species"), original_codon_usage_table=ou)
     cst = dc.EnforceTranslation(location=loc, genetic_table=d["table"])
+    if d.get("seq2"):
+        import numpy as np
+        np.random.seed(d["np_seed"] + 1)
+        try:
+            dc.DnaOptimizationProblem(d["seq2"], constraints=[cst], objectives=[obj], logger=None).optimize()
+        except Exception:  # noqa
+            pass
     return dc.DnaOptimizationProblem(d["seq"], constraints=[cst], objectives=[obj], logger=None)
 
 
